@@ -44,6 +44,12 @@ pub enum FmtKind {
     Debug,
     DebugAlt,
     Display,
+    /// `{:>30}`: micromap's `Display` ignores width and fill
+    DisplayPad,
+    /// `{:#}`: … and the alternate flag
+    DisplayAlt,
+    /// `{:30?}`: width reaches the elements only (ours ignore it)
+    DebugPad,
 }
 
 #[derive(Clone, Copy, Debug, PartialEq)]
@@ -243,6 +249,9 @@ fn fmtk(s: &str) -> Option<FmtKind> {
         "debug" => Some(FmtKind::Debug),
         "debug#" => Some(FmtKind::DebugAlt),
         "display" => Some(FmtKind::Display),
+        "display>" => Some(FmtKind::DisplayPad),
+        "display#" => Some(FmtKind::DisplayAlt),
+        "debug>" => Some(FmtKind::DebugPad),
         _ => None,
     }
 }
@@ -312,7 +321,10 @@ fn map_op(a: &[&str]) -> Option<MapOp> {
         ["clone", d] => MapOp::CloneTo(mreg(d)?),
         ["serde", d] => MapOp::Serde(mreg(d)?),
         ["eq", o] => MapOp::Eq(mreg(o)?),
-        ["from_iter", p, xs] => MapOp::FromIter(*p == "1", pairs(xs)?),
+        ["from_iter", p, xs] => {
+            crate::ctl::with(|c| c.lie_hint = *p == "2");
+            MapOp::FromIter(*p != "0", pairs(xs)?)
+        }
         ["entry", k, mods, fin] => {
             let ms: Option<Vec<i32>> = list(mods)?.into_iter().map(|x| x.parse().ok()).collect();
             MapOp::Entry(key(k)?, ms?, entry_end(fin)?)
@@ -352,8 +364,14 @@ fn set_op(a: &[&str]) -> Option<SetOp> {
         ["clone", d] => SetOp::CloneTo(sreg(d)?),
         ["serde", d] => SetOp::Serde(sreg(d)?),
         ["eq", o] => SetOp::Eq(sreg(o)?),
-        ["from_iter", p, xs] => SetOp::FromIter(*p == "1", keys(xs)?),
-        ["extend", p, xs] => SetOp::Extend(*p == "1", keys(xs)?),
+        ["from_iter", p, xs] => {
+            crate::ctl::with(|c| c.lie_hint = *p == "2");
+            SetOp::FromIter(*p != "0", keys(xs)?)
+        }
+        ["extend", p, xs] => {
+            crate::ctl::with(|c| c.lie_hint = *p == "2");
+            SetOp::Extend(*p != "0", keys(xs)?)
+        }
         ["alg", kind, o, s] => {
             let kind = match *kind {
                 "difference" => AlgKind::Difference,
